@@ -15,7 +15,7 @@ RULE = ("random populated topologies (3..12 real nodes, >=2 nodes on most levels
         "frame, ACK packets, relayed frames). Non-trivial: a multicast frame crossed the air and "
         "quiescence was reached; distinct = (sender class, level argument, length class, relay "
         "pattern, multicast-off pattern, profile class).")
-RULE += (" Later rounds added: multicast_level overrides, multicasts arriving while a member waits for a NETWORK_ACK, the reverse (a member's failing unicast starts right after the multicast reached its radio), a relay whose application stops reading, a multicast after a fragmented unicast that failed outright, nodes whose address was assigned more than once (the same again, or another level first) before the traffic.")
+RULE += (" Later rounds added: multicast_level overrides, multicasts arriving while a member waits for a NETWORK_ACK, the reverse (a member's failing unicast starts right after the multicast reached its radio), a relay whose application stops reading, a multicast after a fragmented unicast that failed outright, nodes whose address was assigned more than once (the same again, or another level first) before the traffic, a multicast to the level of a node that has just completed an acknowledged unicast over two or more hops.")
 REQUIRED = {"level_members_once": 150, "other_levels_clean": 150, "unacknowledged": 150,
             "relay_rebroadcast": 20, "multicast_off_not_listening": 30}
 BUDGET = {"quick": 480, "thorough": 900}
@@ -146,6 +146,18 @@ def gen_cases(ctx):
                                 d = rng.choice(kids)  # the failing hop is the sender's own
                         prefail.append({"u": u, "d": d, "v": rng.choice(others), "ulen": rng.choice([30, 60, 10]),
                                         "len": rng.choice([4, 8, 24])})
+        if i % 3 == 0:
+            # an acknowledged (type 65..191) unicast over two or more hops that completes - the sender
+            # has waited for its NETWORK_ACK in RX mode - then a multicast to that sender's level
+            cands = [(u, d) for u in nodes for d in nodes
+                     if u != d and u not in mc_off and str(u) not in mlevel and len(net_ref.tree_path(u, d)) >= 2]
+            for _ in range(2):
+                others = [v for v in nodes if v not in mc_off]
+                if cands and len(others) > 1:
+                    u, d = rng2.choice(cands)
+                    prefail.append({"u": u, "d": d, "v": rng2.choice([v for v in others if v != u]),
+                                    "ulen": rng2.choice([0, 8, 24]), "utype": rng2.choice([65, 100, 191]),
+                                    "len": rng2.choice([4, 8, 24])})
         lazy = [a for a in nodes if i % 4 == 3 and rng.random() < 0.5]
         if lazy:
             for ms in msgs:
@@ -243,7 +255,9 @@ def _run(ctx, case, net):
         ms["len"] = len(payload)
 
         def fail_fn(nn, b=b):
-            return nn.obj.send(Hdr(b["d"], 1), bytes(b["ulen"]))
+            if "utype" in b:
+                ctx.count("multicasts_after_an_acknowledged_routed_unicast")
+            return nn.obj.send(Hdr(b["d"], b.get("utype", 1)), bytes(b["ulen"]))
 
         def mc_fn(nn, ms=ms, payload=payload):
             return nn.obj.multicast(payload, ms["type"], ms["level"])
@@ -427,8 +441,12 @@ def _run(ctx, case, net):
     # above; the unicasts of the concurrent scenarios go to absent nodes)
     ctx.clause("only_sent_messages_delivered")
     known_payloads = set(bytes(pl) for pl in sent)
+    # (the acknowledged routed unicasts that precede some multicasts reach their one destination)
+    unicasts = {(b["u"], b["d"], b["utype"], bytes(b["ulen"])) for b in case.get("prefail", []) if "utype" in b}
     for nn in net.nodes:
         for e in nn.applog:
+            if (e["from"], e["to"], e["type"], e["msg"]) in unicasts and nn.obj.node_address == e["to"]:
+                continue
             if e["msg"] not in known_payloads:
                 ctx.violation("unsent-message-delivered", "node %s's application read a %d-byte type-%d message from %s "
                               "(to %s) that nobody sent" % (oct(nn.obj.node_address), len(e["msg"]), e["type"],
